@@ -407,6 +407,29 @@ func scenarios() []scenario {
 		}, func(dir string, repo repository.ClockedRepo, raw *repository.GoGitRepo) {
 			hx.Must(bug.Pull(repo, resolvers(repo), "origin", author(repo, "alice")))
 		}},
+		{"pull-fast-forward-onto-foreign-merge", func(dir string) {
+			// both sides edited; the other side merged and pushed: this side fast-forwards onto a merge commit it did not make,
+			// whose edit time is above anything its own clock has seen
+			prepBase(dir, true)
+			localEdit(dir, "the bug", "alice")
+			a := openA(dir)
+			_, err := bug.Push(a, "origin")
+			hx.Must(err)
+			_ = a.Close()
+			b := openB(dir)
+			bg := bugByTitle(b, "the bug")
+			for i := 0; i < 3; i++ {
+				_, _, err := bug.AddComment(bg, author(b, "bob"), 1600000100+int64(i), fmt.Sprintf("remote %d", i), nil, nil)
+				hx.Must(err)
+				hx.Must(bg.Commit(b))
+			}
+			hx.Must(bug.Pull(b, resolvers(b), "origin", author(b, "bob")))
+			_, err = bug.Push(b, "origin")
+			hx.Must(err)
+			_ = b.Close()
+		}, func(dir string, repo repository.ClockedRepo, raw *repository.GoGitRepo) {
+			hx.Must(bug.Pull(repo, resolvers(repo), "origin", author(repo, "alice")))
+		}},
 		{"pull-several-entities", func(dir string) {
 			// one pull that creates a bug, fast-forwards one, merges one, and brings a new identity and a new version of another
 			prepBaseN(dir, []string{"alice", "bob"}, []string{"the bug", "second bug", "third bug"})
